@@ -1,5 +1,4 @@
 // C10 — CodeHolder::new_section: ordered insertion (lower_bound on (order, id)) into an arbitrary sorted section table.
-#define CHENV_BYTE_TABLES 1
 #include "ch_env.h"
 using namespace asmjit;
 using namespace chenv;
